@@ -61,6 +61,7 @@ macro_rules! empty_model_h {
     ($name:ident, $v:expr) => {
         #[kani::proof]
         #[kani::stub(std::fmt::format, vio::fmt_stub)]
+        #[kani::stub(std::string::String::from_utf8_lossy, segio::lossy_stub)]
         #[kani::unwind(6)]
         fn $name() {
             // every flag bit except the two that switch optional header arrays on (known finding model-layout-flags);
@@ -78,6 +79,7 @@ empty_model_h!(c13e_model_empty_cataclysm, M2Version::Cataclysm);
 /// but keeps the flag bits that tell the parser the arrays are there
 #[kani::proof]
 #[kani::stub(std::fmt::format, vio::fmt_stub)]
+#[kani::stub(std::string::String::from_utf8_lossy, segio::lossy_stub)]
 #[kani::unwind(6)]
 fn c13e_model_layout_flags_witness() { empty_model(M2Version::WotLK, FLAG_COMBINERS) }
 
@@ -85,6 +87,7 @@ fn c13e_model_layout_flags_witness() { empty_model(M2Version::WotLK, FLAG_COMBIN
 /// the header parser expects for those versions
 #[kani::proof]
 #[kani::stub(std::fmt::format, vio::fmt_stub)]
+#[kani::stub(std::string::String::from_utf8_lossy, segio::lossy_stub)]
 #[kani::unwind(6)]
 fn c13e_model_legion_witness() { empty_model(M2Version::Legion, 0) }
 
@@ -153,18 +156,22 @@ fn small_model(version: M2Version) {
 }
 #[kani::proof]
 #[kani::stub(std::fmt::format, vio::fmt_stub)]
+#[kani::stub(std::string::String::from_utf8_lossy, segio::lossy_stub)]
 #[kani::unwind(72)]
 fn c13e_model_small_wotlk() { small_model(M2Version::WotLK) }
 #[kani::proof]
 #[kani::stub(std::fmt::format, vio::fmt_stub)]
+#[kani::stub(std::string::String::from_utf8_lossy, segio::lossy_stub)]
 #[kani::unwind(72)]
 fn c13e_model_small_vanilla() { small_model(M2Version::Vanilla) }
 #[kani::proof]
 #[kani::stub(std::fmt::format, vio::fmt_stub)]
+#[kani::stub(std::string::String::from_utf8_lossy, segio::lossy_stub)]
 #[kani::unwind(72)]
 fn c13e_model_small_tbc() { small_model(M2Version::TBC) }
 #[kani::proof]
 #[kani::stub(std::fmt::format, vio::fmt_stub)]
+#[kani::stub(std::string::String::from_utf8_lossy, segio::lossy_stub)]
 #[kani::unwind(72)]
 fn c13e_model_small_cataclysm() { small_model(M2Version::Cataclysm) }
 
@@ -173,6 +180,7 @@ fn c13e_model_small_cataclysm() { small_model(M2Version::Cataclysm) }
 /// file header size
 #[kani::proof]
 #[kani::stub(std::fmt::format, vio::fmt_stub)]
+#[kani::stub(std::string::String::from_utf8_lossy, segio::lossy_stub)]
 #[kani::unwind(24)]
 fn c13e_model_texture_filename_witness() {
     let mut m = M2Model::default();
@@ -192,6 +200,7 @@ fn c13e_model_texture_filename_witness() {
 
 #[kani::proof]
 #[kani::stub(std::fmt::format, vio::fmt_stub)]
+#[kani::stub(std::string::String::from_utf8_lossy, segio::lossy_stub)]
 #[kani::unwind(6)]
 fn c13e_model_canary() {
     let m = model_of(M2Version::WotLK, kani::any());
